@@ -492,8 +492,8 @@ def run(ctx):
     actions = ("RunFeed", "RunEof", "FillValue", "FillCompute", "PersistValue", "PersistCompute", "ComputeAgain",
                "SplitRead", "SplitFill", "SplitEnd")
     ctx.mc("FillSeq", "FillSeq_%s.cfg" % tag)
-    # per-action coverage (vacuity guard) on a small configuration: -coverage doubles the cost of the large one
-    ctx.mc("FillSeq", "FillSeq_cover.cfg", coverage=True, must_cover=actions)
+    # per-action census (vacuity guard) on a small configuration
+    fl.census(ctx, "FillSeq", "FillSeq_cover.cfg", actions)
     # a Split that hands one shared copy of the block to its branches must be rejected (vacuity guard for `place`)
     shared = ctx.mc("FillSeq", "FillSeq_sharedcopy.cfg", expect_violation="report")
     if shared.violated is None:
